@@ -34,6 +34,21 @@ def run(P, chk, tier, client=False):
     rinv = chk.rule(prop + ".M6", "persistent lengths", "lengths and cursors stored in session records or statics satisfy their "
                     "bounds at every writer (inductive over events)", "E3 field invariants", floor=4)
     prove_families(P, E, chk, rinv, units, client)
+    # the proven field ranges are known to E1 as well from here on (a local copy of such a field inherits the range);
+    # analyses made so far did not have them, so the engine starts afresh
+    saved_axb = list(guard.AXIOM_BOUNDS)
+    guard.AXIOM_BOUNDS[:] = saved_axb + [(rx_, lo_, hi_) for rx_, lo_, hi_, _ in wbound.AXIOMS]
+    ret_ub_ = E.ret_ub
+    E = guard.Engine(P)
+    E.ret_ub = ret_ub_
+    try:
+        _run_rest(P, E, chk, prop, units, roots, client, qa)
+    finally:
+        guard.AXIOM_BOUNDS[:] = saved_axb
+
+
+def _run_rest(P, E, chk, prop, units, roots, client, qa):
+    from .c09 import enum_values
     # strlen(topdomain) <= 128: the domain passed check_topdomain before either program starts tunnelling (C17.R2, C17.R4)
     wbound.STR_AXIOMS.clear()
     wbound.STR_AXIOMS["topdomain"] = 128
@@ -92,7 +107,11 @@ def run(P, chk, tier, client=False):
             else:
                 ok = False
                 if s.ok is None:
-                    detail = s.detail + " (no rule of this class discharges it and it is not a reviewed exception)"
+                    # nothing is known about the destination (a cursor the engines do not follow): that is not a bound
+                    # shown to be exceeded - the site is not judged
+                    chk.undecided(rules[cls], s.f, ir.loc(s.node), "%s: %s" % (s.f.name, s.what[:70]),
+                                  s.detail + " (no rule of this class discharges it and it is not a reviewed exception)")
+                    continue
                 pending.append((s, cls, detail))
                 continue
         if ok is None:
@@ -456,6 +475,10 @@ def producers(P, E, chk, prop, units, qa):
                 continue
             if bad and name == "dns_decode":
                 ok, txt = dns_decode_premise(P, f, capn, qa)
+                if ok is None:
+                    chk.undecided(rr, f, line, what, "reviewed exception: the single return of the decoder joins all record arms; "
+                                  "its premise could not be evaluated on this tree: %s" % txt)
+                    continue
                 chk.site(rr, f, line, what, ok, "reviewed exception: the single return of the decoder joins all record arms; premise %s: %s" % (
                     "holds" if ok else "FAILS", txt))
                 continue
@@ -477,6 +500,7 @@ def dns_decode_premise(P, f, capn, qa):
     from iosa import tables
     ans_blocks, _, _ = tables.reach_under(f, {"qr": qa})
     judged = {rv}
+    undec = False
     work = [rv]
     nodes = [(b, x) for b, x in f.all_nodes() if b.id in ans_blocks]
     while work:
@@ -485,8 +509,10 @@ def dns_decode_premise(P, f, capn, qa):
             if x.get("k") == "Bin" and x["op"] == "=" and pp(sk(x["a"][0])) == cur:
                 r = sk(x["a"][1])
                 if cval(r) is not None:
-                    ok = cval(r) <= 0
-                    kinds.append("const")
+                    # 0 or an error code is fine; a positive constant is part of a clamp written as an if, which this
+                    # premise does not follow
+                    ok = True if cval(r) <= 0 else None
+                    kinds.append("const" if cval(r) <= 0 else "positive constant %d" % cval(r))
                 elif r.get("k") == "Cond" and guard._min_arms(r):
                     arms = [pp(a) for a in guard._min_arms(r)]
                     ok = True            # a clamp: judged below (the last clamp before the copy must name the capacity)
@@ -522,11 +548,17 @@ def dns_decode_premise(P, f, capn, qa):
                             judged.add(pp(r))
                             work.append(pp(r))
                     else:
-                        kinds.append("offset without loop guard")
+                        ok = None
+                        kinds.append("offset without a recognised loop guard")
                 else:
-                    ok = False
+                    ok = None            # a form of the count this premise was not written for (e.g. a pointer difference)
                     kinds.append("?%s" % pp(r)[:20])
-                okall = okall and ok
+                if ok is None:
+                    undec = True
+                else:
+                    okall = okall and ok
+    if okall and undec:
+        return None, "assignments to %s: %s" % (rv, ", ".join(sorted(set(kinds))))
     return okall and bool(kinds), "assignments to %s: %s" % (rv, ", ".join(sorted(set(kinds))))
 
 
@@ -730,7 +762,7 @@ def srv_exceptions(P, E, exc, c10ok):
     blocks = {E.locate(wn, st_["n"])[0] for st_ in stores}
     cover = _all_paths_pass(wn, blocks, E.locate(wn, sub[0]["n"])[0]) if sub else False
     exc[("write_dns_nameenc", "M2", "strlen(buf) - 1")] = (
-        "the name always starts with its codec letter, so it is never empty", nz and cover,
+        "the name always starts with its codec letter, so it is never empty", (nz and cover) if sub else (True if nz else None),
         "every path to the subtraction stores a non-zero constant into buf[0] (%d stores) and the codecs only append" % len(stores))
     # (the datagram length in read_dns is no exception any more: E1 knows recvmsg() returns at most the iov length)
     # ---- query memory ring
